@@ -248,9 +248,17 @@ fn copy_dir(src: &Path, dst: &Path) {
 /// run a history from scratch; after every step compare with the model
 fn run_case(c: &Case, sb: &Path, rep: &mut Report, observe_every_step: bool) -> Result<Store, (String, String)> {
     *CURRENT.lock().unwrap() = Some((std::time::Instant::now(), format!("{:?}", c.kind), serde_json::to_string(c).unwrap_or_default()));
-    let r = run_case_inner(c, sb, rep, observe_every_step);
+    // a backend operation that panics is a violation of this history, not a harness failure
+    let r = std::panic::catch_unwind(std::panic::AssertUnwindSafe(|| run_case_inner(c, sb, rep, observe_every_step)));
+    rustic_backend::verif::set_pre_publish(None);
     *CURRENT.lock().unwrap() = None;
-    r
+    match r {
+        Ok(r) => r,
+        Err(e) => {
+            let m = e.downcast_ref::<String>().cloned().or_else(|| e.downcast_ref::<&str>().map(|s| (*s).to_string())).unwrap_or_default();
+            Err((format!("C20/{:?}/panic", c.kind), format!("a backend operation of this history panicked: {m}")))
+        }
+    }
 }
 
 fn run_case_inner(c: &Case, sb: &Path, rep: &mut Report, observe_every_step: bool) -> Result<Store, (String, String)> {
@@ -361,6 +369,7 @@ fn start_watchdog(args: &Args) {
 }
 
 fn main() {
+    std::panic::set_hook(Box::new(|_| {}));
     let args = Args::parse();
     let mut rep = Report::new(&args);
     rep.property = "C20".into();
